@@ -282,6 +282,15 @@ package fosite
 //@   ensures [C11.no-match-no-url] err != nil ==> result0 == nil && ekind(err) == "invalid_request"
 //@   ensures [C11.match-complete] (exists u string :: redirect_ok(rawurl, client.GetRedirectURIs(), u) && url_ok(u) && govalidator.IsRequestURL(url_str(url_scheme(u), url_opaque(u), url_host(u), url_path(u), url_rawquery(u), url_fragment(u))) && url_fragment(u) == "") ==> err == nil
 
+//@ func (*AuthorizeRequest).GetRedirectURI
+//@   pure
+//@   ensures result == d.RedirectURI
+// IsRedirectURIValid (decides whether an error is redirected at all): true only if the request's redirect URI matches a
+// registered URI of the request's client.
+//@ func (*AuthorizeRequest).IsRedirectURIValid
+//@   requires d != nil
+//@   ensures [C11.error-redirect-only-to-registered] result ==> d.RedirectURI != nil && d.Client != nil && (exists u string :: redirect_ok(urlstr(d.RedirectURI), d.Client.GetRedirectURIs(), u))
+
 //@ func IsLocalhost
 //@   requires redirectURI != nil
 //@   ensures [C11.http-only-local] result <==> (strings.HasSuffix(hostname_of(redirectURI.Host), ".localhost") || loopback(hostname_of(redirectURI.Host)) || hostname_of(redirectURI.Host) == "localhost")
